@@ -334,6 +334,27 @@ func routable(run *kit.Run, l limits, p string, rte *fox.Route, key string, rep 
 				run.Violate("bad-values|"+key, fmt.Sprintf("accepted pattern %q: request %s was built from %v but %v is reported", p, q, vals, got.Params), rep)
 				return
 			}
+			// inside the transaction that registers the pattern on a router that holds nothing else (its contexts were sized
+			// for an empty tree), before anything is committed
+			if k == 0 {
+				g3 := newRouter(l)
+				t3 := g3.Txn(true)
+				if _, err := t3.Handle("GET", p, noop); err == nil {
+					var o3, o4 route.Obs
+					run.Guard("txn-lookup-panic|"+key, rep, func() {
+						o3 = route.LookupObs(t3, q)
+						if sn := t3.Snapshot(); sn != nil {
+							o4 = route.LookupObs(sn, q)
+						}
+					})
+					for name, o := range map[string]route.Obs{"the open transaction that registered it": o3, "a snapshot of that transaction": o4} {
+						if o.Pattern != got.Pattern || o.Tsr != got.Tsr || !route.SameParams(o.Params, got.Params) {
+							run.Violate("txn-lookup-differs|"+key, fmt.Sprintf("accepted pattern %q: Lookup of %s through %s gives %s, through a router that committed it %s", p, q, name, o, got), rep)
+						}
+					}
+				}
+				t3.Abort()
+			}
 			// the same lookup through a read-only and a write transaction gives the same answer
 			var viaRead, viaWrite route.Obs
 			_ = g.View(func(t *fox.Txn) error { viaRead = route.LookupObs(t, q); return nil })
@@ -386,7 +407,12 @@ func served(run *kit.Run, l limits, p string, pat *ref.Pattern, key string, rep 
 			gotParams = append(gotParams, ref.KV{K: prm.Key, V: prm.Value})
 		}
 	}
-	if _, err := g.Handle("GET", p, h); err != nil {
+	if _, err := g.Handle("GET", p, func(fox.Context) { calls += 100 }); err != nil {
+		return
+	}
+	// the route is overridden before it is used: the handler that serves is the one registered last
+	if _, err := g.Update("GET", p, h); err != nil {
+		run.Violate("update-rejects|"+key, fmt.Sprintf("accepted and registered pattern %q cannot be updated: %v", p, err), rep)
 		return
 	}
 	// neighbours: registered, then deleted again
